@@ -103,7 +103,7 @@ def chuang_f3(individual):
     Globally Multimodal Problems by Chung-Yao Chuang and Wen-Lian Hsu.
 
     The function takes individual of 40+1 dimensions and has two global optima
-    in [1,1,...,1] and [0,0,...,0].
+    in [1,1,0,0,...,0,0,1,1,1] and [0,0,...,0].
     """
     total = 0
     if individual[-1] == 0:
